@@ -179,6 +179,9 @@ def Membrane.forget (m : Membrane) (p : Str) : Membrane := { m with learned := d
 def Membrane.importAb (m : Membrane) (abs : List Sig) : Membrane :=
   { m with learned := abs.foldl dictSet m.learned }
 
+/-- `export_antibodies()`: `list(self._learned_patterns.values())` -/
+def Membrane.exportAb (m : Membrane) : List Sig := m.learned
+
 /-- `set_threshold(t)` and the direct assignment `m.threshold = t` -/
 def Membrane.setThreshold (m : Membrane) (t : Nat) : Membrane := { m with threshold := t }
 
